@@ -19,7 +19,8 @@ def run(ctx):
     ctx.exhaustive = True
     spells = json.loads(spells[0])
     vlib.log("TLC: %d states, %d transitions emitted" % (len(states), len(edges)))
-    kinds = KINDS if not ctx.quick else KINDS[:3]
+    # (memro: immutable memory buckets built from maps with non-normalised keys; observed only, never written through)
+    kinds = (KINDS if not ctx.quick else KINDS[:3]) + [["memro", "memro"]]
     ekinds = KINDS if not ctx.quick else KINDS[:2]
     # The records stay unparsed JSON texts on this side (a state carries the expected answer of every query on every
     # view).  They are cut into groups by state so that neither side ever holds all of them: a transition goes with the
